@@ -158,6 +158,8 @@ func (w *World) openCtx(t *Tunnel) context.Context {
 		md.Set("sim-key", fmt.Sprint(t.Cfg.Key))
 	}
 	ctx = metadata.NewOutgoingContext(ctx, md)
+	// a context value standing for what an interceptor of the application put there
+	ctx = context.WithValue(ctx, ctxMarkerKey{}, "marker-"+t.Name)
 	if t.Cfg.OpenDeadline > 0 {
 		t.OpenCtx, t.OpenCancel = context.WithTimeout(ctx, t.Cfg.OpenDeadline)
 	} else {
